@@ -95,6 +95,7 @@ type World struct {
 
 	txs       map[string]*ledger.Transaction // every transaction ever seen, by id
 	shippedTx map[string]bool
+	sigChecks map[string]int
 	shippedBk map[string]bool
 	created   map[string]map[int64]bool // id -> candidate creation timestamps
 	emitted   map[valKey]bool
@@ -113,7 +114,7 @@ type Failure struct {
 }
 
 func NewWorld(s *node.Settings, nWallets int, validators []int, rng *rand.Rand, driverPath string, monitors bool) (*World, error) {
-	w := &World{S: s, Rng: rng, txs: map[string]*ledger.Transaction{}, shippedTx: map[string]bool{}, shippedBk: map[string]bool{},
+	w := &World{S: s, Rng: rng, txs: map[string]*ledger.Transaction{}, shippedTx: map[string]bool{}, sigChecks: map[string]int{}, shippedBk: map[string]bool{},
 		created: map[string]map[int64]bool{}, emitted: map[valKey]bool{}, allTs: map[int64]bool{}, Hist: map[string]int{}}
 	for i := 0; i < nWallets; i++ {
 		w.Wallets = append(w.Wallets, node.NewWallet(i))
@@ -184,6 +185,13 @@ func (w *World) send(line map[string]interface{}, kind string) *Verdict {
 
 // ---------------------------------------------------------------- definitions shipped to the driver
 
+func short(s string) string {
+	if len(s) > 10 {
+		return s[:10]
+	}
+	return s
+}
+
 func txDef(t *ledger.Transaction) map[string]interface{} {
 	ins := []map[string]interface{}{}
 	for _, i := range t.Inputs() {
@@ -193,8 +201,11 @@ func txDef(t *ledger.Transaction) map[string]interface{} {
 			Signature string `json:"signature"`
 		}
 		_ = json.Unmarshal(raw, &dto)
+		// address and signature validity come from the primitives directly (node.IndependentInputFacts), never from
+		// the code under test: the model is then judged against what C03 is stated over
+		addr, ok, _ := node.IndependentInputFacts(dto.PublicKey, dto.Signature, i.TransactionId(), i.OutputIndex())
 		ins = append(ins, map[string]interface{}{"t": i.TransactionId(), "i": i.OutputIndex(), "pk": dto.PublicKey, "sg": dto.Signature,
-			"a": i.Address(), "ok": i.VerifySignature() == nil})
+			"a": addr, "ok": ok})
 	}
 	outs := []map[string]interface{}{}
 	for _, o := range t.Outputs() {
@@ -225,6 +236,32 @@ func (w *World) noteTx(d *defs, t *ledger.Transaction, createdAt ...int64) {
 		w.shippedTx[t.Id()] = true
 		w.txs[t.Id()] = t
 		d.txs = append(d.txs, txDef(t))
+	}
+	// C03 tie: the repository's own answers (Input.Address, Input.VerifySignature) must be the primitives' answers —
+	// checked at the first sightings of a transaction (an answer that depends on history — a cache — is the hazard)
+	w.sigChecks[t.Id()]++
+	for k, i := range t.Inputs() {
+		if w.sigChecks[t.Id()] > 2 {
+			break
+		}
+		raw, _ := json.Marshal(i)
+		var dto struct {
+			PublicKey string `json:"public_key"`
+			Signature string `json:"signature"`
+		}
+		_ = json.Unmarshal(raw, &dto)
+		addr, ok, dec := node.IndependentInputFacts(dto.PublicKey, dto.Signature, i.TransactionId(), i.OutputIndex())
+		if !dec {
+			continue
+		}
+		if got := i.VerifySignature() == nil; got != ok {
+			w.Failures = append(w.Failures, Failure{"prop", fmt.Sprintf("C03 signature-check-disagrees-with-primitives tx=%s input=%d ref=%s:%d: Input.VerifySignature says valid=%v, ECDSA verification of the signature over the output reference by the named key says %v",
+				short(t.Id()), k, short(i.TransactionId()), i.OutputIndex(), got, ok), len(w.Lines), "tx-seen"})
+		}
+		if got := i.Address(); got != addr {
+			w.Failures = append(w.Failures, Failure{"prop", fmt.Sprintf("C03 address-disagrees-with-primitives tx=%s input=%d: Input.Address()=%s, address of the named key=%s",
+				short(t.Id()), k, got, addr), len(w.Lines), "tx-seen"})
+		}
 	}
 	if w.created[t.Id()] == nil {
 		w.created[t.Id()] = map[int64]bool{}
